@@ -103,3 +103,37 @@ ASSUMED = [
     "kani/vmk: the dispatch `match instr` of step(), the pc increment and the constant-table fetch are not verified (arms are entered directly)",
 ]
 TRUSTED = ["kani 0.68 + cbmc 6.11 (bit-precise; machine integers are machine integers)", "rustc (Kani toolchain)"]
+
+
+def run_table(unit, tag, arms, harness_path, table, timeout=600, jobs=8, stub_loc=True, extra_info=None):
+    """Generic Kani unit: build the crate, run every harness of `table`, map to obligations.
+    table rows: dict(h=<fq harness>, id=<obligation id>, props=[..], fn=<function under contract>,
+                     bounded=<None|str>, text=<contract text>, should_panic=<bool>)."""
+    import engine as E
+    sc = E.Scratch(tag)
+    try:
+        with open(harness_path) as f:
+            hsrc = f.read()
+        info = build(sc.path, arms=arms, harness_src=hsrc, stub_loc=stub_loc)
+        res = E.run_kani(sc.path, [r['h'] for r in table], timeout=timeout, jobs=jobs)
+        obs = []
+        for r in table:
+            k = res[r['h']]
+            st = k['status']
+            detail = "\n".join(k['failed'][:6])
+            # vacuity: a harness with covers must have at least one SATISFIED cover
+            if st == E.DISCHARGED and k['cover'] and not any(s == "SATISFIED" for _, s in k['cover']):
+                st, detail = E.UNDECIDED, "vacuity guard: no cover statement reachable"
+            if st != E.DISCHARGED and not detail:
+                detail = k['raw'][-1200:]
+            obs.append(E.Obligation(r['id'], r['props'], unit, r['fn'], "kani/cbmc", st, detail, k['time_s'],
+                                    "abra_core/src/vm.rs", "", r.get('bounded'), r.get('text', "harness " + r['h'])))
+        out = dict(assumptions=list(ASSUMED), trusted_base=list(TRUSTED),
+                   checker_cmds=["cargo kani -Z function-contracts -Z stubbing --harness <h> --exact --output-format regular  (crate = vm.rs verbatim + units/vmk replacements)"],
+                   notes=dict(rewrites=info['rewrites'], arm_sha=info['arm_sha'],
+                              covers={r['h']: res[r['h']]['cover'] for r in table if res[r['h']]['cover']}))
+        if extra_info:
+            out['assumptions'] += extra_info.get('assumptions', [])
+        return obs, out
+    finally:
+        sc.cleanup()
